@@ -255,6 +255,28 @@ def utility_parity_ctor_table(ctx, rule):
                 want = "raise"
             if got != want:
                 bad.append(f"(difference_bound={d}, ratio_bound={rb_}) -> {got}, documented {want}")
+    # defaults of the constructor: a moment built with ratio_bound alone has slack 0.0, one built without bounds the 0.01 difference bound
+    import ast as _ast
+    node = ctx.prog.functions[ri.func].node
+    names = [a.arg for a in node.args.args]
+    dflt = dict(zip(names[len(names) - len(node.args.defaults):], node.args.defaults))
+    dflt.update({a.arg: d for a, d in zip(node.args.kwonlyargs, node.args.kw_defaults) if d is not None})
+    want_d = {"difference_bound": None, "ratio_bound": None, "ratio_bound_slack": 0.0}
+    def _dval(k):
+        if k not in dflt:
+            return "<required>"
+        t = A.ev.eval_src(_ast.unparse(dflt[k]), {}, module=M_UP)
+        while t.op == "modconst":
+            t = t.args[1]
+        if t.op == "unop" and t.args[0] == "-" and t.args[1].op == "const":
+            return -const_value(t.args[1])
+        return const_value(t) if t.op == "const" else "<" + show(t, maxdepth=2)[:30] + ">"
+    got_d = {k: _dval(k) for k in want_d}
+    okd = all(k in dflt for k in want_d) and all(got_d[k] == want_d[k] and type(got_d[k]) is type(want_d[k]) or
+                                                  (want_d[k] == 0.0 and got_d[k] == 0 and not isinstance(got_d[k], bool)) for k in want_d)
+    ctx.ob(rule, ri.func, None, okd, "constructor defaults: difference_bound=None, ratio_bound=None, ratio_bound_slack=0.0" if okd else
+           f"constructor defaults are {got_d}, documented {want_d}: a moment built without the argument gets another bound",
+           construct="ctor defaults")
     ctx.exhaustive_spaces.append(f"UtilityParity.__init__: {n_cells} order cells of (difference_bound, ratio_bound)")
     ctx.ob(rule, ri.func, None, not bad,
            f"eps/ratio case table equals the documented one on all {n_cells} cells" if not bad else "; ".join(bad[:4]),
